@@ -33,7 +33,7 @@ First generation, liquidated borrow (x/auction dutch_lend.go):
   (`pool` = pool account + lend module account; extra monitors proceeds_forwarded, lend_bonus_stranded)
 Monitors (on REAL values): pay_le_target receive_le_collateral books_exact (+ `_after_d7` variants, see `finish`) posted_price
 price_monotone price_in_range price_below_end_at_T
-price_in_range_slack close_distributes reserve_draw_skipped limit_fill_overcharge start_price start_record.
+price_in_range_slack close_distributes leftover_to_owner bid_refused reserve_draw_skipped limit_fill_overcharge start_price start_record.
 -/
 -- DRIVER: prefix=dutch ns=Comdex.Drv.Dutch
 namespace Comdex.Drv.Dutch
@@ -288,7 +288,8 @@ def finish (st : St) (seq : String) (outcomeModelOk : Bool) (outcome : String) (
         let out := burned + dlt "collector" + dlt "keeper" + dlt "initiator" + dlt "pool" + dlt "lendres" + (o.ext - st.ext0)
         let proceeds := decide (realPaid - overReal + drawn + shortReal = out) && decide (out = st.e.target)
         let ownerOk := decide ((balOf o "owner").1 - (balOf b0 "owner").1 = st.e.coll0 - realRecv)
-        mon seq ("close_distributes" ++ sfx) (custody && proceeds && ownerOk)
+        -- recipient checked by ACCOUNT: "owner" is the account recorded in the locked vault at seizure
+        mon seq ("close_distributes" ++ sfx) (custody && proceeds && ownerOk) ++ mon seq ("leftover_to_owner" ++ sfx) ownerOk
     else []
   let st' := { st with prev := some o, realPaid := realPaid, realRecv := realRecv, baseD := baseD, drawnReal := drawn, shortReal := shortReal, overReal := overReal,
                        closedSeen := st.closedSeen || closing }
@@ -382,7 +383,7 @@ def finish1 (v : V1St) (seq : String) (isBid : Bool) (okM : Bool) (outcome : Str
         -- the unsold collateral goes to the owner (bid close) or, in an emergency-shutdown wind-down, to the vault / ESM module
         let dC (n : String) : Int := (bal1 o n).1 - (bal1 b0 n).1
         let ownerOk := decide (dC "owner" + dC "vault" + dC "esm" = v.e.coll0 - realRecv)
-        mon seq "close_distributes" (custody && proceeds && ownerOk)
+        mon seq "close_distributes" (custody && proceeds && ownerOk) ++ mon seq "leftover_to_owner" ownerOk
     else []
   let v' := { v with prev := some o, realPaid := realPaid, realRecv := realRecv }
   let v' := if d2.isEmpty then v' else
@@ -441,8 +442,9 @@ def handleV1 (v : V1St) (seq : String) (f : List String) : V1St × List String :
             else []
           | none => []
         | none => []
+      let refused := if okM && (o == "err") then [s!"MON\t{seq}\tbid_refused"] else []
       let v1 := { v with s := match res with | .ok s' => s' | .error _ => v.s }
-      finish1 v1 seq true okM o obs pm
+      finish1 v1 seq true okM o obs (pm ++ refused)
     | _, _, _ => (v, [s!"BAD\t{seq}\tv1 bid"])
   | ["dutch.v1.tick", now, twaC, actC, twaD, actD, esm, snap, o, r, b, m] =>
     match parseInt? now, parseInt? twaC, parseBool? actC, parseInt? twaD, parseBool? actD, parseObs1 r b m with
@@ -516,7 +518,10 @@ def finishL (v : L1St) (seq : String) (isBid : Bool) (okM : Bool) (outcome : Str
         let conserved := decide (rest = v.e.deposit - realRecv - ownerGot) && decide (0 ≤ rest)
         -- the only remainder the DIFF-free model explains: the part of the bonus pot that was not paid out
         let explained := decide (rest = v.e.deposit - v.e.coll0 - v.s.bonusPaid)
-        mon seq "close_distributes" (conserved && explained) ++ mon seq "lend_bonus_stranded" (decide (rest = 0))
+        -- the unsold collateral goes to the borrower recorded at seizure ("owner"), by account
+        let toOwner := decide (ownerGot = v.e.coll0 - (realRecv - v.s.bonusPaid))
+        mon seq "close_distributes" (conserved && explained) ++ mon seq "leftover_to_owner" toOwner ++
+          mon seq "lend_bonus_stranded" (decide (rest = 0))
     else []
   let v' := { v with prev := some o, realPaid := realPaid, realRecv := realRecv, baseC := if closing then v.baseC + redep else v.baseC }
   let v' := if d2.isEmpty then v' else { v' with s := { v'.s with auc := o.auc, bank := bankOf1 o } }
@@ -551,8 +556,9 @@ def handleL1 (v : L1St) (seq : String) (f : List String) : L1St × List String :
         | none => 0
       let r := DutchV1Lend.bidE v.e v.s w amt redep res
       let okM := match r with | .ok _ => true | .error _ => false
+      let refused := if okM && (o == "err") then [s!"MON\t{seq}\tbid_refused"] else []
       let v1 := { v with s := match r with | .ok s' => s' | .error _ => v.s }
-      finishL v1 seq true okM o obs redep []
+      finishL v1 seq true okM o obs redep refused
     | _, _, _, _ => (v, [s!"BAD\t{seq}\tl1 bid"])
   | ["dutch.l1.tick", now, twaC, actC, twaD, actD, o, r, b, _] =>
     match parseInt? now, parseInt? twaC, parseBool? actC, parseInt? twaD, parseBool? actD, parseObsL r b with
@@ -680,8 +686,10 @@ def handle (st : St) (seq : String) (f : List String) : St × List String :=
             else []
           | none => []
         | none => []
+      -- an open auction must take a bid the (so far DIFF-free) model takes: a refusal means the code lost track of the position
+      let refused := if okM && (o == "err") then [s!"MON\t{seq}\tbid_refused"] else []
       let st1 := { st with s := orElse st.s res }
-      finish st1 seq okM o obs true [] pm
+      finish st1 seq okM o obs true [] (pm ++ refused)
     | _, _, _, _ => (st, [s!"BAD\t{seq}\tbid"])
   | ["dutch.tick", now, twaC, actC, twaD, actD, lb0, lb1, o, r, b, m] =>
     match parseInt? now, parseInt? twaC, parseBool? actC, parseInt? twaD, parseBool? actD, parseLB lb0, parseLB lb1, parseObs r b m with
